@@ -16,7 +16,9 @@
 From Coq Require Import String Ascii.
 From Coq Require Import List NArith Bool.
 From Gluon Require Import Model.Chunks Model.SqlBindFacts Model.RelDb Model.RelDbFacts Model.MailboxRef Model.MailboxActions
-  Proofs.RelDbProofs Proofs.MailboxProofs Gen.FactsSqlBind Model.SessionNews Proofs.SessionNewsProofs Gen.FactsResponders.
+  Proofs.RelDbProofs Proofs.MailboxProofs Gen.FactsSqlBind Model.SessionNews Proofs.SessionNewsProofs Gen.FactsResponders
+  Model.TargetOrder Proofs.TargetOrderProofs Gen.FactsTargetOrder.
+From Coq Require Import Sorting.Permutation Sorting.Sorted.
 Import ListNotations.
 Open Scope list_scope.
 Open Scope N_scope.
@@ -127,6 +129,42 @@ Theorem C03_switch_without_reset_refuted :
   ss_snap (flush_news (select_impl true load 2 s)) = Some (2, [(1, 20)]).
 Proof. exact select_without_reset_refuted. Qed.
 Print Assumptions C03_switch_without_reset_refuted.
+
+(* ---- the order in which COPY / MOVE hand the selection over (Model/TargetOrder.v) ---- *)
+(* source fact: Mailbox.Copy and Mailbox.Move sort the selected messages (stable, ascending source UID) before anything
+   else looks at them *)
+Theorem C03_copy_move_sort_first : target_order_ok target_order_facts = true.
+Proof. vm_compute. reflexivity. Qed.
+Print Assumptions C03_copy_move_sort_first.
+
+(* whatever order the message set names the messages in (`3,1`, `4:2,1`, ...: any permutation of the selection), COPY and
+   MOVE have the same effect on every mailbox *)
+Theorem C03_copy_order_of_request_irrelevant : forall s d req req' r, Permutation req req' -> NoDup (map fst req) ->
+  ref_step (CCopy s d (handed_over (sorts_first target_order_facts "Copy") req)) r =
+  ref_step (CCopy s d (handed_over (sorts_first target_order_facts "Copy") req')) r.
+Proof. exact (copy_perm_invariant (sorts_first target_order_facts "Copy") eq_refl). Qed.
+Print Assumptions C03_copy_order_of_request_irrelevant.
+
+Theorem C03_move_order_of_request_irrelevant : forall s d req req' r, Permutation req req' -> NoDup (map fst req) ->
+  ref_step (CMove s d (handed_over (sorts_first target_order_facts "Move") req)) r =
+  ref_step (CMove s d (handed_over (sorts_first target_order_facts "Move") req')) r.
+Proof. exact (move_perm_invariant (sorts_first target_order_facts "Move") eq_refl). Qed.
+Print Assumptions C03_move_order_of_request_irrelevant.
+
+(* and the destination receives the messages, at its end, in the order of the session's view (ascending source UID) *)
+Theorem C03_destination_order_is_source_order : forall view req y,
+  StronglySorted uid_lt view -> NoDup (map fst req) -> (forall p, In p req -> In p view) ->
+  let ts := handed_over (sorts_first target_order_facts "Move") req in
+  map rr_msg (rb_rows (rb_append ts (rb_remove ts y))) = map rr_msg (rb_rows (rb_remove ts y)) ++ source_order view req.
+Proof. exact (copy_destination_order (sorts_first target_order_facts "Move") eq_refl). Qed.
+Print Assumptions C03_destination_order_is_source_order.
+
+(* without the sort the request order shows: MOVE 3,1 *)
+Theorem C03_unsorted_request_refuted :
+  handed_over false [(3, 30); (1, 10)] = [30; 10] /\ handed_over true [(3, 30); (1, 10)] = [10; 30] /\
+  source_order [(1, 10); (2, 20); (3, 30)] [(3, 30); (1, 10)] = [10; 30].
+Proof. vm_compute. repeat split; reflexivity. Qed.
+Print Assumptions C03_unsorted_request_refuted.
 
 (* ---- non-vacuity ---- *)
 (* the empty index and an index with two empty mailboxes are related to the corresponding reference states *)
